@@ -358,3 +358,18 @@ example :
                 && r.u.leg1.testContractible r.vh.leg0
      | .error _ => false) = true := by
   decide
+
+/-- **QR worker, legs and total charges**: `Q.legs = [a.legs[0], inner.conj()]`, `R.legs = [inner, a.legs[1]]` with
+`inner` the leg of `C05_qr_inner_leg` for some projection mask; `Q.qtotal = make_valid(qtotal_Q)` (0 for `None`),
+`R.qtotal = make_valid(a.qtotal - Q.qtotal)`; hence `Q.legs[1]` is contractible with `R.legs[0]`. -/
+theorem C05_qr_worker_legs {α : Type} [Zero α] [One α] [Mul α] (a : BMat α) (F : Nat → Blk α → Mat α × Mat α)
+    (phase conj : α → α) (o : QrOpts) :
+    let w := qrWorker a F phase conj o
+    (∃ mask, w.r.leg0 = (qrInner a.leg0 mask o).2) ∧ w.q.leg1 = w.r.leg0.conj ∧ w.q.leg0 = a.leg0 ∧ w.r.leg1 = a.leg1
+    ∧ w.q.qtotal = makeValid a.leg0.mods ((o.qtotalQ.map (makeValid a.leg0.mods)).getD (czero a.leg0.mods.length))
+    ∧ w.r.qtotal = makeValid a.leg0.mods (csub a.qtotal w.q.qtotal)
+    ∧ w.q.leg1.testContractible w.r.leg0 = true := by
+  intro w
+  simp only [w, qrWorker]
+  split <;> refine ⟨⟨_, rfl⟩, rfl, rfl, rfl, rfl, rfl, ?_⟩ <;>
+    simp [Leg.testContractible, Leg.testEqual, Leg.eq?, Leg.conj]
